@@ -638,7 +638,12 @@ def run (P : Params) (ctx0 : Ctx) : List Frame → St → List Tok → Fin → R
     | .fail e st1 => .err e st1.out.reverse
     | .cont stk1 st1 => run P ctx0 stk1 st1 rest fin
 
-/-- `parseAll` with `SetDefaultBase(base)` (`none` = no default base) -/
+/-- `parseAll` with `SetDefaultBase(base)` (`none` = no default base). `base` is the CONFIGURED string:
+    `DecoderConfig.newDecoder` (decoder_config.go) only parses it (`d.baseURL = ParseIRI(*defaultBase)`, a parse
+    error is `NewDecoder`'s error, outside `Result`) and hands it on unchanged — no normalisation of an empty
+    path, of an empty query or of a trailing '#'. T3 (`rxd.dec <base> …`, go/cmd/c09 `-mode dec`) sends the
+    configured default base, drawn also from those boundary shapes, so any rewriting of it in `newDecoder`
+    is a model/code disagreement. -/
 def decode (P : Params) (base : Option Str) (toks : List Tok) (fin : Fin) : Result :=
   run P (Ctx.init base) [] St.init toks fin
 
